@@ -489,6 +489,29 @@ theorem outer_covers_once (N : Nat) (hN : 0 < N) (lhs rhs pre : List Nat) (n : N
   simp only [Nat.sub_zero] at h
   rw [hsz, h, hsh, prod_snoc, ← List.range_eq_range']
 
+/-! ## eval_matmul: the inner enumerator -/
+
+/-- **the inner steps of every output element read its lhs row and its rhs column exactly once**: for output offset
+    `o` of the `(M, Nn)` result, the lhs blocks of the steps (a register for PACKED, `N − k` elements for `PAD_k`)
+    concatenate to `[o/Nn·K, o/Nn·K + K)` (row `o/Nn` of the row-major lhs) and the rhs blocks to
+    `[o%Nn·K, o%Nn·K + K)` (column `o%Nn` of the column-major rhs), for every inner extent `K` and lane count. -/
+theorem matmul_inner_covers_once (N K Nn o : Nat) (hN : 0 < N) :
+    (List.range (matmulInnerSize N K)).flatMap (fun s =>
+        List.range' (matmulInner N o s Nn K).2.1.off (outerLen N (matmulInner N o s Nn K).2.1))
+      = List.range' (o / Nn * K) K
+    ∧ (List.range (matmulInnerSize N K)).flatMap (fun s =>
+        List.range' (matmulInner N o s Nn K).2.2.off (outerLen N (matmulInner N o s Nn K).2.2))
+      = List.range' (o % Nn * K) K := by
+  constructor
+  · have h := (padded_row_contig N K (o / Nn * K) hN (fun s => (matmulInner N o s Nn K).2.1)
+      (fun s _ => by simp [matmulInner])).blocks
+    simp only [Nat.add_sub_cancel_left] at h
+    exact h
+  · have h := (padded_row_contig N K (o % Nn * K) hN (fun s => (matmulInner N o s Nn K).2.2)
+      (fun s _ => by simp [matmulInner])).blocks
+    simp only [Nat.add_sub_cancel_left] at h
+    exact h
+
 /-! non-vacuity -/
 example : LaneWise1 4 (fun xs : List Nat => xs.map (· + 1)) (· + 1) := fun _ _ => rfl
 example : (⟨[2,5], false, List.range 10⟩ : NDA Nat).WF ∧ Pos [2,5] := ⟨by simp [NDA.WF, prod], by decide⟩
@@ -511,6 +534,7 @@ example : simdBinary2d 4 (List.zipWith (· + ·)) (· + ·) [1,2,3,4,5] [10,20,3
     = some [11,12,13,14,15,21,22,23,24,25,31,32,33,34,35] := by decide
 example : simdReduceAxis 4 (List.zipWith (· + ·)) (· + ·) (0 : Int) 0 ⟨[2,5], false, [1,2,3,4,5,6,7,8,9,10]⟩ (-1) = some [15, 40]
     ∧ scalarReduceAxis (· + ·) (⟨[2,5], false, [1,2,3,4,5,6,7,8,9,10]⟩ : NDA Int) 1 = some [15, 40] := by decide
+example : matmulInnerSize 4 6 = 2 ∧ (matmulInner 4 3 1 2 6).2.1 = ⟨Tag.PAD 2, 10⟩ ∧ (matmulInner 4 3 1 2 6).2.2 = ⟨Tag.PAD 2, 10⟩ := by decide
 example : simdReduceAll 4 (List.zipWith (· + ·)) (· + ·) (0 : Int) ⟨[2,5], false, [1,2,3,4,5,6,7,8,9,10]⟩ = some 55 := by decide
 
 end NmVerif.Props.C12
